@@ -264,6 +264,9 @@ def main(argv=None):
 def _finish(mod, prop, tier, seed, total, errors, wall, nshards):
     outdir = os.path.join(HOME, "out", prop)
     os.makedirs(outdir, exist_ok=True)
+    for fn in os.listdir(outdir):            # replay files of earlier runs are stale
+        if fn.endswith(".json"):
+            os.remove(os.path.join(outdir, fn))
     lines = []
     for sig, n in sorted(total.known_hits.items()):
         lines.append("KNOWN-FINDING: property=%s %s [signature %s, %d case(s) this run]"
